@@ -5,6 +5,7 @@ import (
 	"os"
 	"regexp"
 	"runtime"
+	"runtime/debug"
 	"sort"
 	"strings"
 	"sync"
@@ -112,6 +113,9 @@ type JudgeFn func(v *oracle.View) []oracle.Violation
 // judged by judge. gen must call emit for each case and stop when emit
 // returns false (deadline).
 func RunSnapshots(rep *Report, deadline time.Time, gen func(emit func(Case) bool), judge JudgeFn) {
+	if os.Getenv("VERIF_GOGC") == "" {
+		debug.SetGCPercent(400) // small live heap, high allocation rate
+	}
 	ch := make(chan Case, 256)
 	var wg sync.WaitGroup
 	for i := 0; i < Workers(); i++ {
